@@ -497,6 +497,12 @@ def case_pipeline(case):
     elif kind == "gemmx":
         _, (M, N, K), i8out, lays, setl = case
         src, acc, pre = gemmx_src(M, N, K, i8out, lays), "snax_gemmx", ["dart-scheduler"]
+    elif kind == "alu_nl":
+        # an access map that wraps around (mod) cannot be expressed by strides: the pipeline has to refuse the operation
+        _, n, pat, nb = case
+        src = alu_src((n,), (None, None, None)).replace("affine_map<(d0) -> (d0)>, affine_map<(d0) -> (d0)>", f"affine_map<(d0) -> (d0)>, affine_map<(d0) -> ({pat})>", 1)
+        src = src.replace(f"%b : memref<{n}xi64>", f"%b : memref<{nb}xi64>").replace(f"(memref<{n}xi64>, memref<{n}xi64>, memref<{n}xi64>) -> ()", f"(memref<{n}xi64>, memref<{nb}xi64>, memref<{n}xi64>) -> ()")
+        acc, pre, setl = "snax_alu", ["dart-scheduler"], None
     elif kind == "tiles":
         src, acc, pre, setl = tiles_src(case[1]), "snax_gemmx", ["dart-scheduler"], None
     elif kind == "bgemmx":
@@ -515,6 +521,14 @@ def case_pipeline(case):
         src, acc, pre, setl = direct_schedule_src(TA, TB, TD, mt), "snax_gemmx", [], None
 
     def fn():
+        if kind == "alu_nl":
+            try:
+                observe(src, acc, pre, setl)
+            except Exception as e:
+                eng().oblige("pipeline:operation_with_a_wrapping_access_map_is_refused", True)
+                return
+            eng().oblige("pipeline:operation_with_a_wrapping_access_map_is_refused", False, dict(pattern=case[2]))
+            return
         check(src, acc, pre, setl, str(case)[:120])
         if kind == "tiles":
             # the pointers of the tile views, after convert-memref-to-arith has turned them into arithmetic
@@ -623,6 +637,8 @@ def run(chk):
         if mode is not None:
             la = lb = None
         cases.append(("gemmx", (M, N, K), rnd.random() < 0.5, (la, lb, None), mode))
+    for n, pat, nb in ((16, "d0 mod 8", 8), (16, "d0 mod 4 + 2", 6), (64, "d0 floordiv 2", 32), (16, "d0 ceildiv 2", 9)):
+        cases.append(("alu_nl", n, pat, nb))
     # operands that are tiles (subviews with run-time offsets) of larger tiled buffers: the stream's base pointer is the
     # parent's pointer moved to the tile, whichever of the offsets are run-time values
     for which in (("ai", "bj", "di", "dj"), ("bj", "dj"), ("ai", "di"), ("dj",), ("di",), ()):
